@@ -293,6 +293,8 @@ var wOpaque = map[string]string{
 	// the value of gts.Range(a, b): a gts.Ranged read as a Location
 	"gts.Ranged!loc":  "Gts.Loc",
 	"strings.Builder": "List UInt8",
+	// `parser := parseReferenceInfo(prefix)`: the parser is its prefix
+	"seqio.refParser!": "List UInt8",
 }
 
 // structOf: the fields of a named struct type
